@@ -14,7 +14,7 @@ From Coq Require Import NArith ZArith List Bool.
 From MZ.lib Require Import Mach.
 From MZ.model Require Import InflateCore InflateStream.
 From MZ.spec Require Import Adler Zlib.
-From MZ.proofs Require Import Protocol InflateStreamCounts StoredSpec InflateStoredStream.
+From MZ.proofs Require Import Protocol InflateStreamCounts StoredSpec InflateStoredStream InflateStreamProgress.
 Import ListNotations.
 Local Open Scope N_scope.
 
@@ -101,3 +101,32 @@ Theorem C13_inflate_finish_on_fresh_object_partial :
   exists r, inflate (is_new fmt) (stream ++ extra) out_len FL_FINISH = Ret r /\
     sr_code r = MZ_STREAM_END /\ sr_in r = N.of_nat (length stream) /\ sr_out r = data.
 Proof. exact inflate_finish_fresh. Qed.
+
+(* the progress clause, for EVERY input (a valid stream or not) and every flush value: a call of inflate() given
+   non-empty input and a non-empty output buffer that reports MZ_OK has consumed at least one byte or delivered at
+   least one byte - every other code is a terminal or error result - for every state satisfying the window
+   bookkeeping invariant with the offset inside the window, which every constructor, reset and call preserves *)
+Theorem C13_ok_means_progress :
+  forall s input out_len flush r,
+  WFo s -> input <> [] -> (0 < out_len)%N ->
+  inflate s input out_len flush = Ret r -> sr_code r = MZ_OK ->
+  (0 < sr_in r)%N \/ sr_out r <> [].
+Proof. exact inflate_progress. Qed.
+
+Theorem C13_progress_invariant_is_reachable :
+  forall fmt s input out_len flush r,
+  WFo (is_new fmt) /\
+  (WFo s -> WFo (min_reset s) /\ WFo (zero_reset s) /\ WFo (full_reset fmt s) /\
+            ((out_len <= USIZE_MAX)%N -> inflate s input out_len flush = Ret r -> WFo (sr_state r))).
+Proof.
+  intros fmt s input out_len flush r. split; [apply WFo_new|]. intros H.
+  split; [apply WFo_min_reset; exact H|]. split; [apply WFo_zero_reset; exact H|].
+  split; [apply WFo_full_reset; exact H|]. intros Hol Hr. exact (inflate_WFo s input out_len flush r H Hol Hr).
+Qed.
+
+Example C13_ok_with_progress :
+  match inflate (is_new FZlib) [120; 1; 0; 3] 10 0 with
+  | Ret r => sr_code r = MZ_OK /\ sr_in r = 4%N
+  | _ => False
+  end.
+Proof. vm_compute. split; reflexivity. Qed.
